@@ -92,6 +92,41 @@ def fr(v):
     return tofrac(v)
 
 
+def tracker_subclasses():
+    """User-defined subclasses that add nothing to the statistics ARE Welford / smoothing trackers: a third of the streams each run
+    through a direct subclass and through a subclass of a subclass (extra property / class attribute, no override).  Built once,
+    as module-level names so that they pickle."""
+    g = globals()
+    if "PlainWelford" not in g:
+        from ixai.utils.tracker import WelfordTracker, ExponentialSmoothingTracker
+
+        class PlainWelford(WelfordTracker):
+            pass
+
+        class NamedWelford(PlainWelford):
+            label = "named"
+
+            @property
+            def spread(self):
+                return self.std
+
+        class PlainSmoothing(ExponentialSmoothingTracker):
+            pass
+
+        class NamedSmoothing(PlainSmoothing):
+            label = "named"
+
+            @property
+            def level(self):
+                return self.get()
+
+        for c in (PlainWelford, NamedWelford, PlainSmoothing, NamedSmoothing):
+            c.__qualname__ = c.__name__
+            c.__module__ = __name__
+            g[c.__name__] = c
+    return g["PlainWelford"], g["NamedWelford"], g["PlainSmoothing"], g["NamedSmoothing"]
+
+
 def main(run):
     from ixai.utils.tracker import WelfordTracker, ExponentialSmoothingTracker
     run.rule = ("streams of exact rationals (13 value patterns (incl. values equal to the running mean or to the tracker's own current value, exact zeros between non-zero values) x lengths 0..300, thorough to 4096; plus streams of ~10^4 (thorough ~10^5) updates on ONE tracker object checked at every 2^k-1,2^k,2^k+1 and 1000s) pushed through the shipped "
@@ -106,6 +141,7 @@ def main(run):
     run.require("ixai/utils/tracker/welford.py:WelfordTracker.update",
                 "ixai/utils/tracker/exponential_smoothing.py:ExponentialSmoothingTracker.update")
     thorough = run.tier == "thorough"
+    run.require_count("subclassed-tracker-streams")
     rnd = random.Random(run.shard_seed)
     rec = PathRecorder([WelfordTracker.update.__code__, ExponentialSmoothingTracker.update.__code__])
     wpaths, epaths = set(), set()
@@ -115,6 +151,10 @@ def main(run):
         lengths += [512, 1024] + ([4096] if run.shard[0] % 4 == 0 else [])
     alphas = [Q(0), Q(1), Q(1, 3), Q(1, 1000), 0.25, 0.5, 1, 0, 1.0]
     bad = 0
+
+    PlainWelford, NamedWelford, PlainSmoothing, NamedSmoothing = tracker_subclasses()
+    variants = [(WelfordTracker, ExponentialSmoothingTracker), (PlainWelford, PlainSmoothing), (NamedWelford, NamedSmoothing)]
+    cfg_i = 0
     for kind in KINDS:
         for n in lengths:
             for rep in range(reps):
@@ -124,7 +164,11 @@ def main(run):
                 if isinstance(alpha, float) and kind == "fractions":
                     alpha = Q(alpha)     # Fraction/int inputs times a float alpha would be float arithmetic (C20's subject)
                 fa = fr(alpha)
-                w, e = WelfordTracker(), ExponentialSmoothingTracker(alpha)
+                WT, ET = variants[cfg_i % 3]
+                cfg_i += 1
+                if WT is not WelfordTracker:
+                    run.count("subclassed-tracker-streams")
+                w, e = WT(), ET(alpha)
                 # linearity partners
                 a, b = Q(rnd.randrange(-9, 10), 4), Q(rnd.randrange(-9, 10), 5)
                 other = [Q(fr(v)) for v in gen_stream(rnd, n, rnd.choice(KINDS))]
